@@ -2,12 +2,13 @@
 """store_seed.py <Cxx> <slug> <detected_by> <initially: caught|missed> -- copy an agent's confirmed seed into /verif/seeded/"""
 import json, os, shutil, subprocess, sys
 pid, slug, det, initial = sys.argv[1:5]
-src = "/tmp/seed_%s/OUT" % pid
-dst = "/verif/seeded/%s-%s" % (pid, slug)
+R = sys.argv[5] if len(sys.argv) > 5 else ""
+src = "/tmp/seed%s_%s/OUT" % (R, pid)
+dst = "/verif/seeded/%s-%s%s" % (pid, "r%s-" % R if R else "", slug)
 os.makedirs(dst, exist_ok=True)
 for n in os.listdir(src):
     shutil.copy(os.path.join(src, n), os.path.join(dst, n))
-log = open("/tmp/confirm_%s.log" % pid).read() if os.path.exists("/tmp/confirm_%s.log" % pid) else ""
+log = open("/tmp/confirm%s_%s.log" % (R, pid)).read() if os.path.exists("/tmp/confirm%s_%s.log" % (R, pid)) else ""
 res = [l for l in log.splitlines() if l.startswith("---") or l.startswith("test result") or "panicked" in l or "patch.diff matches" in l]
 notes = open(os.path.join(src, "notes.md")).read()
 meta = {
